@@ -37,7 +37,8 @@ ASSUMPTIONS = [
     '(get_subset does not validate idx: an out-of-range index along the slice axis can return an invalid extension, e.g. '
     'shape (2,2,3,1,3), a ("global","slices") key, get_subset(2,3))',
     'from_sequence: all inputs have the shape and slice dimension of the first; a slice_dim argument, when given, is that '
-    'slice dimension (merge_dom); inputs with another slice dimension or none are outside the proved domain',
+    'slice dimension (merge_dom); inputs with another slice dimension or none are outside the proved domain (there the real '
+    'code can build invalid results: open finding N11, reported under C03)',
     'closure theorems are conditional on the operation returning a result: in the regions of the open findings N1-N4 the '
     'model, like the code, raises, so nothing is produced there',
     'inject: validity is closed unconditionally; nondegeneracy only when the injected classification is ("global","const") or '
@@ -245,7 +246,7 @@ def real_inject(ext, op):
     os.makedirs(work, exist_ok=True)
     _INJ_COUNTER[0] += 1
     path = os.path.join(work, 'inject_%d_%d.nii' % (os.getpid(), _INJ_COUNTER[0]))
-    nii = nb.Nifti1Image(np.zeros(tuple(ext.shape), dtype=np.int16), np.array(ext.affine, dtype=float))
+    nii = nb.Nifti1Image(np.zeros(tuple(ext.shape), dtype=np.int16), np.eye(4))     # the image itself is irrelevant to inject
     nii.header.set_dim_info(slice=ext.slice_dim)
     nii.header.extensions.append(ext)
     nb.save(nii, path)
@@ -266,7 +267,11 @@ def real_inject(ext, op):
 
 def run_ops(case):
     np, dcmmeta = X._imports()
-    ext = build_ext(case['ext'])
+    try:
+        ext = build_ext(case['ext'])
+    except Exception as e:      # noqa: BLE001  (make_empty did not provide a required dictionary)
+        return {'start': {'valid': False, 'json': False, 'valid_msg': 'make_empty + filling the class dictionaries raised %s: %s'
+                          % (type(e).__name__, str(e)[:120])}, 'steps': []}
     start = _check(ext)
     steps = []
     for op in case['ops']:
@@ -402,8 +407,29 @@ class OpsPart:
 
     @staticmethod
     def gen_cases(rng, tier):
-        n = 420 if tier == 'quick' else 3500
-        return [gen_history(rng, tier) for _ in range(n)]
+        n = 1200 if tier == 'quick' else 6000
+        out = [gen_history(rng, tier) for _ in range(n)]
+        # merges whose inputs are the restrictions of one total function on the output grid (what a split produces),
+        # half of them 5-D along the slice axis; the current extension sits at a random position
+        for i in range(300 if tier == 'quick' else 2000):
+            mc = None
+            if i % 2 == 0:
+                for _try in range(12):
+                    c = X.gen_merge_case(rng, tier, dim=rng.choice([0, 1, 2]), ndim_in=5)
+                    if c['exts'][0]['sdim'] == c['dim']:
+                        mc = c
+                        break
+            mc = mc or X.gen_merge_case(rng, tier)
+            exts = mc['exts']
+            j = rng.randrange(len(exts))
+            ops = [{'op': 'merge', 'before': exts[:j], 'after': exts[j + 1:], 'dim': mc['dim'], 'aff': mc['aff'],
+                    'sdim_arg': mc['sdim_arg']}]
+            sh = merge_shape(exts[0]['shape'], mc['dim'], len(exts))
+            if rng.random() < 0.5:
+                d = rng.randrange(len(sh))
+                ops.append({'op': 'subset', 'dim': d, 'idx': rng.randrange(sh[d])})
+            out.append({'kind': 'ops/restrictions/' + mc['kind'].split('/', 1)[1], 'ext': exts[j], 'ops': ops})
+        return out
 
     run_impl = staticmethod(run_ops)
     coq_case = staticmethod(ops_case_to_coq)
@@ -541,7 +567,7 @@ class WrapPart:
     @staticmethod
     def gen_cases(rng, tier):
         out = []
-        n = 60 if tier == 'quick' else 400
+        n = 90 if tier == 'quick' else 600
         for _ in range(n // 3):
             sh, sdim, fam = gen_start_shape(rng, tier)
             out.append({'kind': 'wrap/empty/' + fam, 'mode': 'empty', 'img': {'shape': sh, 'slice': sdim, 'aff': gen_affine(rng)}})
@@ -650,3 +676,11 @@ class DegenPart:
 
 
 PARTS = [OpsPart, WrapPart, DegenPart]
+
+# [HOOK, image level] The image halves of C07 (extension geometry == image geometry after NiftiWrapper.from_sequence / split;
+# theorems Props/C07img.v, model coq/Wrapper/*, parts in props/imglib.py, open finding N8) belong to the image-level agent and
+# are added by the integrator:
+#     from props import imglib
+#     COQ_PROPS = [COQ_PROPS, 'Props/C07img.v']; THEOREMS += imglib.THEOREMS['Props/C07img.v']
+#     PARTS += [imglib.for_property(p, 'C07') for p in (imglib.ImgMergePart, imglib.ImgSplitPart, imglib.ImgRoundTripPart)]
+# (corpus/C07/imgmerge_*.json are cases of those parts; this plugin's own parts ignore them).
